@@ -1,6 +1,7 @@
 pub mod ev;
 pub mod faulty;
 pub mod hist;
+pub mod sched;
 pub mod world;
 
 pub use ev::{Reporter, Tier};
